@@ -129,7 +129,7 @@ static uint64_t n_unique(void) { return pv_scaled(300, 3000); }
 static void run_unique(uint64_t idx, pv_rng* rng) {
     pv_mlang* L = (idx % 3 == 0) ? &pv_langs[idx % (uint64_t)pv_nlangs] : EN;
     if (!L->lib || !strncmp(L->key, "zh", 2)) L = EN;
-    unsigned c[16], coin = pv_gen_coin(rng);
+    unsigned c[16] = { 0 }, coin = pv_gen_coin(rng);
     for (int k = 1; k < 16; ++k) c[k] = pv_randn(rng, 2048);
     if (idx % 5 == 0) { for (int k = 1; k < 16; ++k) c[k] = pv_randn(rng, 4) ? 0 : (1024 + pv_randn(rng, 1024)); }   /* sparse, high elements (reduction path) */
     unsigned d[16]; memcpy(d, c, sizeof d); d[1] ^= coin;          /* d = what the phrase shows */
